@@ -191,26 +191,220 @@ Proof.
   - split; [intros _; left; reflexivity|reflexivity].
 Qed.
 
+(* ------------------------------------------------------------------------------------------ *)
+(* do_use_token = its head (everything up to and including the transition to PassToken), then -
+   since the F20 repair - do_pass_token in the same poll when the head made that transition.     *)
+
+Definition do_use_token_head (f : fdl) (now : Z) (w : world A) : res (fdl * world A) :=
+  let* _ := assert_entry DoUseToken f in
+  let* (token_time, _, _) := get_use_token (f_state f) in
+  let* (f, w) :=
+    (if negb (f_last_token_time f =? token_time) then
+       let* e := inst_add (f_last_token_time f) (token_rotation_time (f_p f)) in
+       match f_gap f with
+       | GapDoPoll _ =>
+           let* e := inst_sub_dur e (p_bits_to_time (f_p f) (p_slot_bits (f_p f) + gap_reserve_extra_bits)) in
+           Ok (set_hold f token_time e, note A w TUseNewVisitGapReserve)
+       | GapWaiting _ => Ok (set_hold f token_time e, note A w TUseNewVisit)
+       end
+     else Ok (f, w)) in
+  let* (f, wait) := wait_synchronization_pause f now in
+  if wait then Ok (f, note A w TSyncWait) else
+  let* (_, _, fcd) := get_use_token (f_state f) in
+  let* (f, w, done) :=
+    (if now <? f_end_tht f then
+       let* f := set_first_cycle_done f in
+       apps_transmit_telegram A ops f now (note A w TUseLowPrio) false
+     else if negb fcd then
+       let* f := set_first_cycle_done f in
+       apps_transmit_telegram A ops f now (note A w TUseHighPrioOnce) true
+     else Ok (f, note A w TUseHoldOver, false)) in
+  if done then Ok (f, w) else
+  trans A f w (fun s => transition_pass_token s true first_attempt).
+
+Definition is_pass_token (s : state) : bool := state_kind_eqb (kind_of s) KPassToken.
+
+Lemma mark_tx_state f now n f' : mark_tx f now n = Ok f' -> f_state f' = f_state f.
+Proof.
+  unfold mark_tx. intros H.
+  destruct (4294967295 <? Z.of_nat n); [discriminate H|].
+  destruct (4294967295 <? bits_per_byte * Z.of_nat n); [discriminate H|].
+  destruct (inst_add _ _); cbn [bind] in H; try discriminate H. injection H as <-. reflexivity.
+Qed.
+
+Lemma app_transmit_not_pass (f : fdl) now (w : world A) idx app hp f' w' d :
+  app_transmit_telegram A ops f now w idx app hp = Ok (f', w', d) ->
+  is_pass_token (f_state f) = false -> is_pass_token (f_state f') = false.
+Proof.
+  unfold app_transmit_telegram. intros H Hk.
+  destruct (a_tx ops app now (f_p f) hp) as [[app' r]| |]; cbn [bind] in H; try discriminate H.
+  destruct r as [[wire exp]|]; [|injection H as <- _ _; exact Hk].
+  destruct (phy_transmit A _ wire) as [w1| |]; cbn [bind] in H; try discriminate H.
+  destruct exp as [addr|].
+  - destruct (get_use_token (f_state f)) as [[[tk fa] fcd]| |]; cbn [bind] in H; try discriminate H.
+    match type of H with context [trans A ?a ?b ?c] => destruct (trans A a b c) as [[f1 w2]| |] eqn:Et end;
+      cbn [bind] in H; try discriminate H.
+    apply trans_state in Et. destruct Et as [Ht _]. unfold transition_await_data_response in Ht.
+    destruct (assert_kind _ _); cbn [bind] in Ht; try discriminate Ht. injection Ht as Ht.
+    destruct (mark_tx f1 now _) as [f2| |] eqn:Em; cbn [bind] in H; try discriminate H.
+    injection H as <- _ _. rewrite (mark_tx_state _ _ _ _ Em), <- Ht. reflexivity.
+  - cbn [bind] in H. destruct (mark_tx f now _) as [f2| |] eqn:Em; cbn [bind] in H; try discriminate H.
+    injection H as <- _ _. rewrite (mark_tx_state _ _ _ _ Em). exact Hk.
+Qed.
+
+Lemma apps_transmit_loop_not_pass n : forall (f : fdl) now (w : world A) hp f' w' d,
+  apps_transmit_loop A ops n f now w hp = Ok (f', w', d) ->
+  is_pass_token (f_state f) = false -> is_pass_token (f_state f') = false.
+Proof.
+  induction n as [|n IH]; intros f now w hp f' w' d H Hk; cbn [apps_transmit_loop] in H.
+  - injection H as <- _ _. exact Hk.
+  - destruct (nth_error (w_apps w) (f_next_app f)) as [app|]; [|discriminate H].
+    destruct (app_transmit_telegram A ops f now w (f_next_app f) app hp) as [[[f1 w1] d1]| |] eqn:Ea;
+      cbn [bind] in H; try discriminate H.
+    apply app_transmit_not_pass in Ea; [|exact Hk].
+    destruct d1; [injection H as <- _ _; exact Ea|].
+    unfold schedule_next_application in H.
+    destruct (get_use_token (f_state f1)) as [[[tk fa] fcd]| |]; cbn [bind] in H; try discriminate H.
+    destruct (Nat.eqb (length (w_apps w1)) 0); [discriminate H|]. cbn [bind] in H.
+    match type of H with (if ?c then _ else _) = _ => destruct c end.
+    + injection H as <- _ _. reflexivity.
+    + apply IH in H; [exact H|reflexivity].
+Qed.
+
+(* the head leaves PassToken exactly when it made the transition at its end *)
+Lemma do_use_token_split (f : fdl) now (w : world A) :
+  do_use_token A ops f now w =
+  let* (f1, w1) := do_use_token_head f now w in
+  if is_pass_token (f_state f1) then do_pass_token A f1 now w1 else Ok (f1, w1).
+Proof.
+  unfold do_use_token, do_use_token_head, assert_entry.
+  destruct (f_state f) as [ | | | |tk fa fcd| | | | | ] eqn:Es;
+    cbn [kind_of do_fn_entry state_kind_eqb bind get_use_token]; try reflexivity.
+  match goal with |- bind ?x _ = _ => destruct x as [[f1 w1]| |] eqn:E1 end; cbn [bind]; try reflexivity.
+  assert (Hs1 : f_state f1 = f_state f).
+  { destruct (negb _).
+    - destruct (inst_add _ _) as [e| |]; cbn [bind] in E1; try discriminate E1.
+      destruct (f_gap f).
+      + injection E1 as <- _. reflexivity.
+      + destruct (inst_sub_dur _ _) as [e2| |]; cbn [bind] in E1; try discriminate E1.
+        injection E1 as <- _. reflexivity.
+    - injection E1 as <- _. reflexivity. }
+  destruct (wait_synchronization_pause f1 now) as [[f2 wait]| |] eqn:Ew; cbn [bind]; try reflexivity.
+  assert (Hs2 : f_state f2 = f_state f1).
+  { unfold wait_synchronization_pause, lba_get_or_insert in Ew.
+    destruct (f_lba f1);
+      (match type of Ew with context [inst_add ?a ?b] => destruct (inst_add a b) end;
+       cbn [bind] in Ew; [|discriminate Ew|discriminate Ew]);
+      injection Ew as <- _; reflexivity. }
+  destruct wait.
+  - cbn [bind]. rewrite Hs2, Hs1, Es. reflexivity.
+  - rewrite Hs2, Hs1, Es. cbn [get_use_token bind].
+    match goal with |- bind ?x _ = _ => destruct x as [[[f3 w3] d]| |] eqn:E3 end; cbn [bind]; try reflexivity.
+    destruct d.
+    + cbn [bind].
+      assert (Hk : is_pass_token (f_state f3) = false).
+      { assert (Hk2 : forall f2', set_first_cycle_done f2 = Ok f2' -> is_pass_token (f_state f2') = false).
+        { intros f2' Hc. unfold set_first_cycle_done in Hc. rewrite Hs2, Hs1, Es in Hc. cbn [get_use_token bind] in Hc.
+          injection Hc as <-. reflexivity. }
+        destruct (now <? f_end_tht f2).
+        - destruct (set_first_cycle_done f2) as [f2'| |] eqn:Ec; cbn [bind] in E3; try discriminate E3.
+          eapply apps_transmit_loop_not_pass; [exact E3|]. apply Hk2. reflexivity.
+        - destruct (negb fcd); [|discriminate E3].
+          destruct (set_first_cycle_done f2) as [f2'| |] eqn:Ec; cbn [bind] in E3; try discriminate E3.
+          eapply apps_transmit_loop_not_pass; [exact E3|]. apply Hk2. reflexivity. }
+      rewrite Hk. reflexivity.
+    + unfold trans, transition_pass_token.
+      destruct (assert_kind _ _); cbn [bind]; reflexivity.
+Qed.
+
+(* do_pass_token asks no application and consumes nothing *)
+Lemma phy_send_frame (w : world A) rq w' n : phy_send A w rq = Ok (w', n) ->
+  w_calls w' = w_calls w /\ w_apps w' = w_apps w /\ w_rx w' = w_rx w.
+Proof.
+  unfold phy_send. destruct (transmit tx_buffer_size rq) as [[wire e]| |]; cbn [bind]; try discriminate.
+  unfold phy_transmit. destruct (w_tx w); cbn [bind]; [discriminate|].
+  intros H. injection H as <- <-. cbn. repeat split; reflexivity.
+Qed.
+
+Lemma next_gap_poll_traced_frame (f : fdl) (w : world A) cur f' w' :
+  next_gap_poll_traced A f w cur = Ok (f', w') ->
+  w_calls w' = w_calls w /\ w_apps w' = w_apps w /\ w_rx w' = w_rx w.
+Proof.
+  unfold next_gap_poll_traced. destruct (next_gap_poll f cur); cbn [bind]; try discriminate.
+  intros H. injection H as <- <-. cbn. repeat split; reflexivity.
+Qed.
+
+Lemma do_pass_token_frame (f : fdl) now (w : world A) f' w' :
+  do_pass_token A f now w = Ok (f', w') ->
+  w_calls w' = w_calls w /\ w_apps w' = w_apps w /\ w_rx w' = w_rx w.
+Proof.
+  unfold do_pass_token. intros H.
+  destruct (assert_entry DoPassToken f); cbn [bind] in H; try discriminate H.
+  destruct (wait_synchronization_pause f now) as [[f1 wait]| |]; cbn [bind] in H; try discriminate H.
+  destruct wait; [injection H as <- <-; cbn; repeat split; reflexivity|].
+  destruct (get_pass_token (f_state f1)) as [[g att]| |]; cbn [bind] in H; try discriminate H.
+  match type of H with bind ?x _ = _ => destruct x as [[[f2 w2] polled]| |] eqn:E2 end; cbn [bind] in H; try discriminate H.
+  assert (H2 : w_calls w2 = w_calls w /\ w_apps w2 = w_apps w /\ w_rx w2 = w_rx w).
+  { destruct g; [|injection E2 as _ <- _; repeat split; reflexivity].
+    match type of E2 with bind ?x _ = _ => destruct x as [[f3 w3]| |] eqn:E3 end; cbn [bind] in E2; try discriminate E2.
+    assert (H3 : w_calls w3 = w_calls w /\ w_apps w3 = w_apps w /\ w_rx w3 = w_rx w).
+    { destruct (f_gap f1) as [rc|cur].
+      - destruct (p_gap_wait (f_p f1) <? rc).
+        + apply next_gap_poll_traced_frame in E3. exact E3.
+        + destruct (u8_add rc 1); cbn [bind] in E3; try discriminate E3. injection E3 as _ <-. cbn. repeat split; reflexivity.
+      - apply next_gap_poll_traced_frame in E3. exact E3. }
+    unfold transmit_gap_poll_if_pending in E2. destruct (f_gap f3) as [rc|cur].
+    - injection E2 as _ <- _. exact H3.
+    - destruct (cur =? ts f3); [discriminate E2|].
+      destruct (phy_send A w3 _) as [[w4 n]| |] eqn:Ep; cbn [bind] in E2; try discriminate E2.
+      destruct (mark_tx f3 now n); cbn [bind] in E2; try discriminate E2. injection E2 as _ <- _.
+      apply phy_send_frame in Ep. destruct Ep as [-> [-> ->]]. exact H3. }
+  destruct H2 as [Hc2 [Ha2 Hr2]].
+  destruct polled as [pa|].
+  - apply trans_state in H. destruct H as [_ [_ [_ [_ [-> [-> ->]]]]]]. repeat split; assumption.
+  - destruct (phy_send A w2 _) as [[w3 n]| |] eqn:Ep; cbn [bind] in H; try discriminate H.
+    apply phy_send_frame in Ep. destruct Ep as [Hc3 [Ha3 Hr3]].
+    destruct (witness _ _ _); cbn [bind] in H; try discriminate H.
+    match type of H with bind ?x _ = _ => destruct x as [[f4 w4]| |] eqn:E4 end; cbn [bind] in H; try discriminate H.
+    destruct (mark_tx f4 now n); cbn [bind] in H; try discriminate H. injection H as _ <-.
+    assert (H4 : w_calls w4 = w_calls w3 /\ w_apps w4 = w_apps w3 /\ w_rx w4 = w_rx w3).
+    { match type of E4 with (if ?c then _ else _) = _ => destruct c end.
+      - apply trans_state in E4. destruct E4 as [_ [_ [_ [_ [-> [-> ->]]]]]]. cbn. repeat split; reflexivity.
+      - destruct (get_pass_token _) as [[g2 att2]| |]; cbn [bind] in E4; try discriminate E4.
+        apply trans_state in E4. destruct E4 as [_ [_ [_ [_ [-> [-> ->]]]]]]. cbn. repeat split; reflexivity. }
+    destruct H4 as [-> [-> ->]]. rewrite Hc3, Ha3, Hr3. repeat split; assumption.
+Qed.
+
 (* Hold-time rule, the "over" half: in UseToken, with the visit's deadline already computed, the
    synchronisation pause over, the hold time over and the guaranteed cycle done, no application is
-   asked, nothing is transmitted, and the station goes on to pass the token. *)
+   asked and the station goes on to pass the token - since the F20 repair in the same poll: the rest
+   of the poll is do_pass_token from PassToken{do_gap, First} (a GAP request or the token goes out). *)
 Lemma do_use_token_hold_over (f : fdl) (w : world A) now tk fa l :
   f_state f = UseToken tk fa true -> f_last_token_time f = tk -> f_lba f = Some l ->
   i64_ok (l + p_bits_to_time (f_p f) sync_pause_bits) = true ->
   l + p_bits_to_time (f_p f) sync_pause_bits < now ->
   f_end_tht f <= now ->
-  exists w', do_use_token A ops f now w = Ok (set_st f (PassToken true first_attempt), w') /\
-             w_calls w' = w_calls w /\ w_tx w' = w_tx w /\ w_apps w' = w_apps w.
+  exists w1, do_use_token A ops f now w = do_pass_token A (set_st f (PassToken true first_attempt)) now w1 /\
+             w_calls w1 = w_calls w /\ w_tx w1 = w_tx w /\ w_apps w1 = w_apps w /\
+             forall f' w', do_use_token A ops f now w = Ok (f', w') ->
+                           w_calls w' = w_calls w /\ w_apps w' = w_apps w.
 Proof.
   intros Hst Hlt Hl Hok Hsync Hend.
-  unfold do_use_token, assert_entry. rewrite Hst. cbn [f_state kind_of do_fn_entry state_kind_eqb bind get_use_token].
-  rewrite Hlt, Z.eqb_refl. cbn [negb bind].
-  unfold wait_synchronization_pause, lba_get_or_insert. rewrite Hl. unfold inst_add. rewrite Hok. cbn [bind].
-  destruct (Z.leb_spec now (l + p_bits_to_time (f_p f) sync_pause_bits)) as [C|_]; [lia|].
-  rewrite Hst. cbn [get_use_token bind].
-  destruct (Z.ltb_spec now (f_end_tht f)) as [C|_]; [lia|].
-  cbn [negb bind]. unfold trans. rewrite Hst. cbn.
-  eexists. split; [reflexivity|]. cbn. repeat split; reflexivity.
+  assert (Hh : exists w1, do_use_token_head f now w = Ok (set_st f (PassToken true first_attempt), w1) /\
+                          w_calls w1 = w_calls w /\ w_tx w1 = w_tx w /\ w_apps w1 = w_apps w).
+  { unfold do_use_token_head, assert_entry. rewrite Hst. cbn [f_state kind_of do_fn_entry state_kind_eqb bind get_use_token].
+    rewrite Hlt, Z.eqb_refl. cbn [negb bind].
+    unfold wait_synchronization_pause, lba_get_or_insert. rewrite Hl. unfold inst_add. rewrite Hok. cbn [bind].
+    destruct (Z.leb_spec now (l + p_bits_to_time (f_p f) sync_pause_bits)) as [C|_]; [lia|].
+    rewrite Hst. cbn [get_use_token bind].
+    destruct (Z.ltb_spec now (f_end_tht f)) as [C|_]; [lia|].
+    cbn [negb bind]. unfold trans. rewrite Hst. cbn.
+    eexists. split; [reflexivity|]. cbn. repeat split; reflexivity. }
+  destruct Hh as [w1 [Hh [Hc [Ht Ha]]]].
+  assert (Hd : do_use_token A ops f now w = do_pass_token A (set_st f (PassToken true first_attempt)) now w1).
+  { rewrite do_use_token_split, Hh. reflexivity. }
+  exists w1. split; [exact Hd|]. split; [exact Hc|]. split; [exact Ht|]. split; [exact Ha|].
+  intros f' w' H. rewrite Hd in H. apply do_pass_token_frame in H. destruct H as [-> [-> _]]. split; assumption.
 Qed.
 
 (* ------------------------------------------------------------------------------------------ *)
